@@ -362,8 +362,66 @@ def check_C18(ctx):
                             'decode mappings are compared for declared spaces of at most 64 vectors', 'TLC']}
 
 
-CHECKS = {'C18': check_C18, 'C20': check_C20, 'C17': check_C17, 'C08': check_C08, 'C13': check_C13, 'C19': check_C19, 'C05': check_C05, 'C15': check_C15, 'C11': check_C11, 'C09': check_C09, 'C10': check_C10, 'C01': check_C01, 'C02': check_C02, 'C03': check_C03, 'C04': check_C04, 'C06': check_C06,
+def check_C12(ctx):
+    from harness import layer_select
+    res = runner.memo('select', ctx, lambda: layer_select.run(ctx))
+    viol = [{'clause': f['fails'][0][0].split(':')[0], 'all_clauses': sorted({c[0] for c in f['fails']}), 'where': 'settings %d' % f['tid'],
+             'payload': {'layer': 'select', 's': f['s'], 'enc': f.get('enc'), 'limit': f.get('limit'), 'selected': f.get('selected')}} for f in res['fails']]
+    cov = {'states': res['states'], 'transitions': res['transitions'], 'traces_validated_against_impl': res['n_traces'] + res['key_pairs'],
+           'samples': res['samples'], 'evaluations': res['selections'] + res['key_pairs'], 'distinct_nontrivial': res['n_traces'],
+           'rule': 'SelectorCache.tla is model-checked (transparent with an injective key, violated without; torn read with non-atomic '
+                   'writes is a model-level observation only). Cache histories are replayed per settings (hand-picked degenerate ones, '
+                   'sampled 2x2 alphabet family, seeded random up to 3x3): cold cache, warm cache, and a cache directory written by another '
+                   'interpreter with another hash seed. Time limits: the real limiter with 0.5 ms and 2 s, and a deterministic adversary in place '
+                   'of the limiter (every timed call expires / only the count / everything but lazy instantiation / none / random masks). '
+                   'The selected manager\'s decode trace is validated as a working coding (C10 clauses, Mon_ConnCoding); warm = cold and '
+                   'loaded-from-other-process = what that process reported are compared on encoder, variables and the whole decode '
+                   'mapping; the matrix cache against a fresh computation; pairs of settings differing in one key field for key collisions',
+           'settings': res['n_settings'], 'selections': res['selections'], 'degenerate_settings': res['degenerate'],
+           'tiny_limit_settings': res['tiny_limit'], 'key_pairs': res['key_pairs'], 'pairs_with_equal_key': res['same_key_pairs'],
+           'encoders_selected': res['encoders_selected'], 'scheduled_expiry': res['scheduled_expiry'],
+           'model_SelectorCache': res['model'], 'exhaustive': False}
+    return {'level': 'model_checking', 'coverage': cov, 'violations': viol,
+            'assumptions': ['only the installed numeric stack is exercised (clause "library versions" of the property is an assumption)',
+                            'which candidates time out under the tiny limit is not controlled; any selected encoder that is a working coding is accepted',
+                            'concurrent writers/readers of one cache directory are explored in the model only', 'TLC, CommunityModules Json']}
+
+
+CHECKS = {'C12': check_C12, 'C18': check_C18, 'C20': check_C20, 'C17': check_C17, 'C08': check_C08, 'C13': check_C13, 'C19': check_C19, 'C05': check_C05, 'C15': check_C15, 'C11': check_C11, 'C09': check_C09, 'C10': check_C10, 'C01': check_C01, 'C02': check_C02, 'C03': check_C03, 'C04': check_C04, 'C06': check_C06,
           'C07': check_C07, 'C14': check_C14, 'C16': check_C16}
+
+
+def _replay_select(payload):
+    import os, shutil, tempfile
+    from harness import drive_select, tlc as _t
+    from harness.runner import CACHE
+    wd = tempfile.mkdtemp(prefix='selr-', dir=CACHE if os.path.isdir(CACHE) else None)
+    try:
+        sd = payload['s']
+        if 'a' in sd:                                            # a key pair
+            r = drive_select.drive_keypair(sd['a'], sd['b'], sd['kind'], tid=0)
+            r['rkind'] = 'keypair'
+            return _t.run_monitor('Mon_Select', [r], cfg='Mon_Select.cfg', shards=1)['verdicts'][0][2]
+        limits = ([payload['limit']] if payload.get('limit') else []) + [2.0, 0.0005, 'sched:all', 'sched:nonlazy']
+        traces = []
+        for i, limit in enumerate(limits):
+            t = drive_select.drive(sd, wd, tid=i, limit=limit, other=None)
+            if 'skip' in t:
+                return []
+            traces.append(t)
+        m1 = _t.run_monitor('Mon_ConnCoding', traces, cfg='Mon_ConnCoding.cfg', shards=1)
+        out, recs = [], []
+        for t in traces:
+            v = m1['verdicts'][t['tid']]
+            counts = v[3] if isinstance(v[3], list) else [v[3][k] for k in sorted(v[3])]
+            out += [['C12.selected_coding_not_working', c[1]] for c in v[2] if c[0].startswith('C10.') and c[0] != 'C10.variable_with_one_value']
+            recs.append({'tid': t['tid'], 'rkind': 'settings', 'sel': t['sel'], 'valid_counts': counts})
+        m2 = _t.run_monitor('Mon_Select', recs, cfg='Mon_Select.cfg', shards=1)
+        for r in recs:
+            out += m2['verdicts'][r['tid']][2]
+        return out
+    finally:
+        shutil.rmtree(wd, ignore_errors=True)
 
 
 def replay_payload(payload):
@@ -372,6 +430,8 @@ def replay_payload(payload):
     if layer == 'graph':
         from harness import layer_graph
         return layer_graph.replay(payload['g'])
+    if layer == 'select':
+        return _replay_select(payload)
     if layer == 'ident':
         from harness import layer_ident, drive_ident
         import tempfile, shutil, os
